@@ -19,7 +19,7 @@ Lemma run_mzd_row_add_offset d h fl mem dst src co m' :
   Ok (None, mem_of (words m')).
 Proof.
   intros Hv Hd Hdst Hsrc Hco Hw. pose proof (valid_hdr_ok _ _ Hv) as Hok. pose proof (valid_mem_ok _ _ Hv) as Hm.
-  pose proof Hd as (D1 & D2 & D3 & D4 & D5). pose proof Hok as (Hwd & _ & Hrs).
+  pose proof Hd as (D1 & D2 & D3 & D4 & D5 & D6). pose proof Hok as (Hwd & _ & Hrs).
   pose proof (hmask_lt h Hok) as Hhm.
   assert (Hsbw : (co / 64 < h_width h)%nat) by now apply width_pos.
   assert (Hk : (h_width h - 1 < h_width h)%nat) by lia.
